@@ -62,10 +62,12 @@ def legs(quick):
     D = {"workers": 4, "heap": "4g"}
     design = [dict(D, module="MC_Ring", cfg="MC_I_Ring_quick.cfg", thorough_cfg="MC_I_Ring.cfg"),
               dict(D, module="MC_Ring", cfg="MC_I_Ring_quick1.cfg", thorough_cfg="MC_I_Ring_p1.cfg")]
+    if not quick:
+        design.append(dict(D, module="MC_Ring", cfg="MC_I_Ring_p1b.cfg"))
     out = [dict(BASE, design=design,
                 gen={"module": "Gen_Ring", "cfg": "Gen_cover_q.cfg", "thorough_cfg": "Gen_cover.cfg", "workers": 4,
-                     "max": 700, "thorough_max": 50000},
-                n_random=(250, 6000)),
+                     "max": 600, "thorough_max": 50000},
+                n_random=(150, 6000)),
            dict(BASE, design=[],
                 gen={"module": "Gen_Ring", "cfg": "Gen_sim.cfg", "simulate": {"num": 80, "depth": 40},
                      "thorough_simulate": {"num": 4000, "depth": 40}},
@@ -73,7 +75,7 @@ def legs(quick):
            # large rings with the default hash: thousands of virtual nodes, removals and several insertions between
            # lookup batches, every batch repeated on a ring built fresh from the current member set
            dict(BASE, design=[], gen=None, n_random=(0, 0),
-                driver={"cmd": "ring", "env": {"VERIF_RING_BIG": "4" if quick else "80"}})]
+                driver={"cmd": "ring", "env": {"VERIF_RING_BIG": "3" if quick else "80"}})]
     return out
 
 
@@ -82,7 +84,8 @@ def run(ctx):
         pipeline.standard_check(ctx, P)
         if ctx.violations:
             break
-        drift(ctx, i + 1)
+        if i == 0 or (i == 1 and not ctx.quick):      # legs with table-driven hashes
+            drift(ctx, i + 1)
         if ctx.replay:
             break
 
